@@ -210,8 +210,11 @@ def literal(scanner: Scanner):
                 break
 
             # Skip escape character, if any
-            scanner.eat(Chars.Backslash)
-            scanner.next()
+            if scanner.eat(Chars.Backslash) and scanner.eat(Chars.CR):
+                # Escaped line break may be a CRLF pair
+                scanner.eat(Chars.LF)
+            else:
+                scanner.next()
 
         # Do not throw if string is incomplete
         return True
